@@ -553,3 +553,111 @@ func TestC20SchedEnum(t *testing.T) {
 	}
 	pbt.Ev.LabelN("sched_enum_schedules", total)
 }
+
+// ---- one goroutine, deep backlogs ---------------------------------------------------------------------------
+//
+// FIFO order and exactly-once delivery against the model for long push/pull histories of a single goroutine: the
+// backlog grows to hundreds of items and shrinks again, in generated run lengths (a queue that re-allocates or wraps
+// around internally does so at some backlog with some number of items already pulled). Pull is only called when the
+// model holds an item or the queue is closed, so nothing blocks.
+
+type C20Seq struct {
+	Kind string `json:"kind"` // linked | chan
+	Cap  int    `json:"cap"`
+	Runs []int  `json:"runs"` // >0: that many pushes; <0: that many pulls (clipped to what is there)
+}
+
+func c20CheckSeq(c C20Seq) *pbt.Violation {
+	var q queue.Queue[int]
+	if c.Kind == "linked" {
+		q = queue.NewLinkedQueue[int]()
+	} else {
+		q = queue.NewChannelQueue[int](c.Cap)
+	}
+	var model []int
+	next, pulled := 0, 0
+	for ri, r := range c.Runs {
+		for i := 0; i < r; i++ {
+			next++
+			ok := q.Push(next)
+			want := c.Kind == "linked" || len(model) < c.Cap
+			if ok != want {
+				return pbt.V("c20.seq.push", "Push is accepted while there is room and refused when the bounded queue is full", "run #%d: Push(%d) returned %v with %d items queued (%s cap %d)", ri, next, ok, len(model), c.Kind, c.Cap)
+			}
+			if ok {
+				model = append(model, next)
+			}
+		}
+		for i := 0; i < -r && len(model) > 0; i++ {
+			v, ok := q.Pull()
+			pulled++
+			if !ok || v != model[0] {
+				return pbt.V("c20.seq.order", "each pushed item is delivered exactly once, in order", "run #%d: pull #%d returned (%d,%v), the head of the queue is %d (%d items queued, %d pushed so far; %s cap %d)", ri, pulled, v, ok, model[0], len(model), next, c.Kind, c.Cap)
+			}
+			model = model[1:]
+		}
+	}
+	q.Close()
+	for len(model) > 0 {
+		v, ok := q.Pull()
+		if !ok || v != model[0] {
+			return pbt.V("c20.seq.after-close", "after Close the remaining items are handed out before closure is reported", "after Close: Pull returned (%d,%v), %d items remain, head %d (%s cap %d)", v, ok, len(model), model[0], c.Kind, c.Cap)
+		}
+		model = model[1:]
+	}
+	if v, ok := q.Pull(); ok {
+		return pbt.V("c20.seq.invented", "only pushed items are delivered", "Pull on the drained closed queue returned (%d,true)", v)
+	}
+	return nil
+}
+
+var c20Seq = pbt.Register(pbt.Prop[C20Seq]{
+	Name: "C20Seq",
+	Gen: func(t *rapid.T) C20Seq {
+		c := C20Seq{Kind: rapid.SampledFrom([]string{"linked", "linked", "chan"}).Draw(t, "kind")}
+		if c.Kind == "chan" {
+			c.Cap = rapid.SampledFrom([]int{0, 1, 4, 64, 100, 1000}).Draw(t, "cap")
+		}
+		run := rapid.OneOf(rapid.IntRange(1, 5), rapid.SampledFrom([]int{15, 16, 17, 31, 32, 33, 63, 64, 65, 127, 128, 129, 255, 256, 257, 600}), rapid.IntRange(1, 300))
+		for i, n := 0, rapid.IntRange(1, 14).Draw(t, "nruns"); i < n; i++ {
+			r := run.Draw(t, "run")
+			if rapid.IntRange(0, 2).Draw(t, "pull") == 0 {
+				r = -r
+			}
+			c.Runs = append(c.Runs, r)
+		}
+		return c
+	},
+	Check: c20CheckSeq,
+	Classify: func(c C20Seq) (bool, []string, []byte) {
+		depth, max, pulledBefore := 0, 0, false
+		deepAfterPull := false
+		for _, r := range c.Runs {
+			if r > 0 {
+				depth += r
+				if depth >= 64 && pulledBefore {
+					deepAfterPull = true
+				}
+			} else {
+				if depth > 0 {
+					pulledBefore = true
+				}
+				depth += r
+				if depth < 0 {
+					depth = 0
+				}
+			}
+			if depth > max {
+				max = depth
+			}
+		}
+		labels := []string{"seq_" + c.Kind}
+		if deepAfterPull {
+			labels = append(labels, "seq_backlog_64_after_pulls")
+		}
+		return max >= 2, labels, nil
+	},
+	Quick: 32000, Thorough: 600000,
+})
+
+func TestC20Seq(t *testing.T) { pbt.Run(t, c20Seq) }
